@@ -385,3 +385,130 @@ def run_closing(ctx):
             ctx.note_distinct(["close", flav, job["sched"]])
     print("NOTE property=C03 closing kernel: %d forced schedules of adopt() racing the failure path; in %d of them a payload handed to an already closed asyncio / threading runner runs unsupervised, as Closing.tla predicts (NeverLeftAlone fails in the model: finding F13 of C02 and its threading variant; not a clause of C03)" % (len(jobs), alone))
     ctx.extra["closing_kernel"] = {"configurations": len(cfgs), "schedules_forced": len(jobs), "conforming": conforming, "schedules_with_unsupervised_payload": alone}
+
+
+# ---------------------------------------------------------------------------------------------
+# Stopping.tla: registrations racing ServiceRunner.shutdown() from another thread
+STOP_INV = ["TypeOK", "NoUnknownRunner", "TableGoneOnlyWhenNotRunning", "AdoptNeverRaises", "EndAfterShutdownReturned"]
+
+
+def stop_module(name, flav, emit):
+    lines = ["---- MODULE %s ----" % name, "EXTENDS Stopping, Json, Integers"]
+    lines.append("MCSubs == 1..%d" % len(flav))
+    lines.append("MCFlav == <<" + ", ".join('"%s"' % f for f in flav) + ">>")
+    lines.append("St == [spc0 |-> spc0, mpc |-> mpc, table |-> table, alive |-> alive, running |-> running, loopopen |-> loopopen, spc |-> spc, sres |-> sres, fate |-> fate]")
+    if emit:
+        lines.append("Who == IF spc0' # spc0 THEN 0 - 1 ELSE IF mpc' # mpc THEN 0 ELSE CHOOSE s \\in MCSubs : spc'[s] # spc[s]")
+        lines.append('Emit == PrintT(<<"EDGE", ToJson([f |-> St, a |-> Who, t |-> St\'])>>)')
+    lines.append("====")
+    return "\n".join(lines)
+
+
+def stop_expected_at(state, who):
+    if who == -1:
+        return {"flagged": "sr.shutdown.flag", "waited": "sr.shutdown.stop", "returned": "sr.shutdown.ret"}[state["spc0"]]
+    if who == 0:
+        return {"finally": "mr.running.clear", "ended": "end"}[state["mpc"]]
+    return {"hit": "mr.reg.direct", "miss": "mr.reg.miss", "toqueue": "mr.reg.queue", "done": "ret"}[state["spc"][who - 1]]
+
+
+def compare_stopping(flav, acts, exps, obs):
+    viol, drift = [], []
+    if obs is None or obs.get("error"):
+        return viol, ["scheduler process failed: %s" % (obs or {}).get("error", "no output")]
+    steps = obs["steps"]
+    names = {-1: "shut", 0: "main"}
+    for i, (who, st) in enumerate(zip(acts, exps)):
+        if i >= len(steps):
+            drift.append("step %d (%s): the thread never arrived anywhere (stuck: %s)" % (i + 1, names.get(who, who), obs.get("stuck")))
+            return viol, drift
+        s = steps[i]
+        want = stop_expected_at(st, who)
+        if s["who"] != names.get(who, who) or s["at"] != want:
+            drift.append("step %d: %s expected to arrive at %s, arrived at %s (%s)" % (i + 1, names.get(who, "submitter %s" % who), want, s["at"], s.get("res") or s.get("cause") or ""))
+            return viol, drift
+        if who > 0 and want == "ret" and s["res"] != st["sres"][who - 1]:
+            msg = "step %d: adopt of submitter %d (%s) with shutdown() at '%s' and main at '%s': specification says %s, the code did %s" % (i + 1, who, flav[who - 1], st["spc0"], st["mpc"], st["sres"][who - 1], s["res"])
+            if s["res"] != "ok":
+                viol.append(("AdoptNeverRaises", msg, {"res": s["res"].split(":")[0], "flavour": flav[who - 1], "main_at": st["mpc"], "shutdown_at": st["spc0"]}))
+            else:
+                drift.append(msg)
+            return viol, drift
+    final = exps[-1]
+    if obs["accept_running"] or obs["main_end"].get("exc"):
+        viol.append(("StopReturnsNormally", "after shutdown() accept() %s" % ("still runs" if obs["accept_running"] else "raised %s" % obs["main_end"]), {}))
+    if obs.get("shut_end", {}).get("exc", "") != "":
+        viol.append(("ShutdownDoesNotRaise", "shutdown() raised %s" % obs["shut_end"], {}))
+    for s in range(1, len(flav) + 1):
+        fate = final["fate"][s - 1]
+        c = obs["starts"].get(str(s), 0)
+        lo, hi = {"started": (1, 1), "unsupervised": (1, 1), "maybe": (0, 1), "abandoned": (0, 1)}.get(fate, (0, 0))
+        if not lo <= c <= hi:
+            what = "payload %d (%s, %s) started %d time(s), the specification says %d..%d" % (s, flav[s - 1], fate, c, lo, hi)
+            if c > 1 or (fate == "started" and c == 0):
+                viol.append(("NoneLost" if c == 0 else "StartedOnce", what, {"fate": fate, "flavour": flav[s - 1]}))
+            else:
+                drift.append(what)
+    if obs["wrong_flavour"]:
+        viol.append(("RightFlavour", "payloads %s ran outside the runner of their flavour" % obs["wrong_flavour"], {}))
+    return viol, drift
+
+
+C03_FORMULAS = ("AdoptNeverRaises", "NoneLost", "StartedOnce", "RightFlavour")
+C12_FORMULAS = ("StopReturnsNormally", "ShutdownDoesNotRaise")
+
+
+def run_stopping(ctx, only=C03_FORMULAS):
+    """only: the formulas that belong to the property whose check calls this (the others'
+    failures are reported as drift here and as violations by the other property's check)"""
+    thorough = ctx.tier == "thorough"
+    rnd = random.Random(ctx.seed + 29)
+    two = list(itertools.product(FLAVS, repeat=2))
+    three = list(itertools.product(FLAVS, repeat=3))
+    cfgs = two + (three if thorough else rnd.sample(three, 2))
+    per_cfg = 400 if thorough else 12
+
+    def explore(arg):
+        k, flav = arg
+        name = "MCStop_%s" % "".join(f[:2] for f in flav)
+        return name, tlc.run(name, close_cfg(STOP_INV, True), module_text=stop_module(name, flav, True), name=name, workers=1, timeout=600, coverage=(k < 1), heap="1g")
+
+    with ThreadPoolExecutor(max_workers=10) as ex:
+        explored = list(ex.map(explore, enumerate(cfgs)))
+    jobs, meta = [], []
+    for k, (flav, (name, res)) in enumerate(zip(cfgs, explored)):
+        ctx.model_must_hold(name, res)
+        ctx.add_model_run(name, res)
+        g = graph.from_prints(res.prints)
+        if not g.nedges:
+            raise tlc.MachineryError("%s: no transitions emitted" % name)
+        paths, remaining = complete_paths(g, None if thorough else per_cfg * 8, ctx.seed + k)
+        if len(paths) > per_cfg:
+            paths = rnd.sample(paths, per_cfg)
+        for acts, exps in paths:
+            jobs.append({"stop": True, "flav": list(flav), "sched": ["shut" if a == -1 else "main" if a == 0 else a for a in acts]})
+            meta.append((flav, acts, exps))
+    obs = run_jobs(jobs)
+    alone = conforming = 0
+    for (flav, acts, exps), job, o in zip(meta, jobs, obs):
+        ctx.traces_total += 1
+        ctx.events_total += len(acts)
+        viol, drift = compare_stopping(flav, acts, exps, o)
+        case = {"kernel": "Stopping", "flavours": list(flav), "schedule": job["sched"], "observed": o}
+        if any(f in ("abandoned", "unsupervised") for f in exps[-1]["fate"]):
+            alone += 1
+        for formula, what, extra in viol:
+            if formula not in only:
+                drift.append("%s (%s)" % (what, formula))
+                continue
+            fp = {"invariant": formula, "kernel": "stopping"}
+            fp.update(extra)
+            ctx.add_violation(formula, fp, "stopping kernel, schedule %s: %s" % (job["sched"], what), case)
+        viol = [v for v in viol if v[0] in only]
+        for what in drift:
+            ctx.add_drift("stopping kernel (%s) schedule %s: %s" % ("/".join(flav), job["sched"], what), case)
+        if not viol and not drift:
+            ctx.traces_accepted += 1
+            conforming += 1
+            ctx.note_distinct(["stop", flav, job["sched"]])
+    ctx.extra["stopping_kernel"] = {"configurations": len(cfgs), "schedules_forced": len(jobs), "conforming": conforming, "schedules_with_unsupervised_payload": alone}
